@@ -3,7 +3,7 @@
 cd "$(dirname "$0")/.." || exit 3
 for d in seeded/*/; do
   sid=$(basename $d)
-  pid=$(python3 -c "import json;print(json.load(open('$d/meta.json'))['property'])")
+  pid=$(python3 -c "import json;m=json.load(open('$d/meta.json'));print(m.get('decided_by') or m['property'])")
   needs=$(python3 -c "import json;print(json.load(open('$d/meta.json'))['needs'])")
   echo "$sid $pid"
 done > /tmp/seed_list.txt
